@@ -25,6 +25,15 @@ CHECKS['C02'] = ('model_checking',
          'Bounded: claims cover the enumerated generators and depths only. Twist classes define no / or **, which '
          'are therefore not demanded for them. Reference: numpy matrix product/inverse, 50-digit exponential for twists.',
          'DESIGN.md 2.4, 3/C02')
+CHECKS['C03'] = ('exploration',
+         'exhaustive product over landmark ladders (theta x axis x translation part x form x twist flag x entry point) against a 50-digit reference exponential',
+         'Every algebra element of the product alphabet (rotation magnitudes 0, 1e-12..1e-1, generic, pi-1e-1..pi-1e-12, pi; '
+         'coordinate/generic/near-degenerate axes; translation parts 0 and 1e-6..1e6 parallel/perpendicular/generic) is '
+         'pushed through trexp/trexp2/trlog/trlog2 and every class wrapper; exp is compared with a 50-digit exponential, '
+         'and the returned log is re-exponentiated by the reference.',
+         'Bounded to the enumerated letters (values between the ladder rungs are not visited). Trusted: mpmath at 50 digits, '
+         'closed-form reference exponential self-tested against mpmath.expm.',
+         'DESIGN.md 3/C03')
 PENDING = {}
 
 def main():
